@@ -94,7 +94,10 @@ pub fn new(parameters: &RawParameters, ctx: &dyn Context) -> Result<Op, Error> {
         steps.push(Op::op(step_parameters, ctx)?);
     }
 
-    let params = ParsedParameters::new(parameters, &GAMUT)?;
+    // The pipeline as such has no parameters of its own: Parsing the full
+    // definition text would mistake modifiers of the first/last step for
+    // modifiers of the entire pipeline
+    let params = ParsedParameters::new(&parameters.next("pipeline"), &GAMUT)?;
     let fwd = InnerOp(pipeline_fwd);
     let inv = InnerOp(pipeline_inv);
     let descriptor = OpDescriptor::new(definition, fwd, Some(inv));
